@@ -259,6 +259,8 @@ class Run:
         sb = pb[5] if len(pb) > 5 else "-"
         self.line = f"sctp pair {pa[3]} {pa[4]} {sa} {pb[3]} {pb[4]} {sb}"
         self.expected = ea + "&" + eb
+        if any(op[0] == "react2" for op in case["ops"]):
+            self.line = None        # handlers that close / create from inside an event are outside the automaton
         self.crashes = {n: list(w.ep[n].crashes) for n in "AB"}
         self.reentrancy = sum(w.ep[n].reentrancy for n in "AB")
         # per channel summaries
@@ -420,7 +422,12 @@ class WorldComponent(Component):
             return impl_out[:300]
         if r.reentrancy:
             return "harness assumption violated: a handler suspended (not atomic)"
+        # runs in which application handlers close / create channels from inside events are outside the automaton and
+        # the channel pairing the delivery oracles rely on: they are judged by the oracles that need no pairing
+        unmodelled = any(op[0] == "react2" for op in case["ops"])
         for f in self.oracles:
+            if unmodelled and f in (oracle_c01, oracle_c06, oracle_c02):
+                continue
             res = f(case, r)
             if res:
                 return res
